@@ -5,14 +5,14 @@ if "FILE_JOB" not in globals():
     exec(compile(open(_p6).read(), _p6, "exec"), globals())
 C06_FILE_JOBS = [
     dict(name="file-roundtrip", harness="C06_file.cpp", entries=["harness_roundtrip"], timeout={"quick": 600, "thorough": 1800},
-         shards={"quick": [{0: FM_TET, 1: 0}, {0: FM_TETP, 1: 0}, {0: FM_EMPTY, 1: 0}], "thorough": [{0: w, 1: ro} for w in (FM_EMPTY, FM_TET, FM_TETP) for ro in range(4)]},
+         shards={"quick": [{0: FM_TET, 1: 0}], "thorough": [{0: w, 1: ro} for w in (FM_EMPTY, FM_TET, FM_TETP) for ro in range(4)]},
          bounds="bytes written by the real writer (natively, current tree) for the empty mesh, one tetrahedron (Vec3d positions) and the tetrahedron with one persistent int vertex "
                 "property are read back by IO::ovmb_read: counts, every edge/face/cell definition handle for handle, bottom-up flags per ReadOptions, property kind/name/type/default/"
                 "persistence; the 12 coordinates (arbitrary 64-bit patterns) and the 4 property values (arbitrary 32-bit patterns) are SYMBOLIC, substituted at the offsets of the published "
                 "layout, and must be read back bit for bit; thorough: all 4 combinations of topology_check / bottom_up_incidences", **FILE_JOB),
-    dict(name="file-roundtrip-fixed", harness="C06_file.cpp", entries=["harness_roundtrip_fixed"], shards=[{0: FM_TET}, {0: FM_TETP}], timeout=600,
+    dict(name="file-roundtrip-fixed", harness="C06_file.cpp", entries=["harness_roundtrip_fixed"], shards=[{0: FM_TET}, {0: FM_TETP}], timeout=600, tiers=["thorough"],
          bounds="same files, the writer's own coordinates and property values (no substitution) compare equal to the written mesh", **FILE_JOB),
-    dict(name="reader-edge-chunk-vs-format", harness="C07_file.cpp", entries=["harness_c06_edge_chunk"], shards=[{0: 1, 1: 1}, {0: 2, 1: 1}, {0: 4, 1: 1}], timeout=600,
+    dict(name="reader-edge-chunk-vs-format", harness="C07_file.cpp", entries=["harness_c06_edge_chunk"], shards=[{0: 1, 1: 1}, {0: 2, 1: 1}, {0: 4, 1: 1}], timeout=600, tiers=["thorough"],
          bounds="BinaryFileReader::read_topo_chunk (via OVMVerifAccess) on a one-edge TOPO chunk, 4 vertices read so far: symbolic span.first (64 bit), handle_encoding byte, "
                 "handle_offset (64 bit), handle bytes (2 x 1/2/4 bytes): an accepted chunk stores handle + handle_offset (published TopoChunkHeader), a chunk valid under the "
                 "published layout is accepted", **FILE_JOB),
